@@ -1253,6 +1253,13 @@ func boundMethod(mc *ssa.MakeClosure) (*ssa.Function, map[*ssa.Parameter]ssa.Val
 	case *ssa.UnOp:
 		if b.Op == token.MUL {
 			al, _ = b.X.(*ssa.Alloc)
+			// the receiver kept in a local variable that a closure captures
+			// (stream := &eventStream{…}): the variable's one value is the struct
+			if c2, ok := core.Canon(b).(*ssa.Alloc); ok && c2 != al {
+				if _, isStruct := c2.Type().Underlying().(*types.Pointer).Elem().Underlying().(*types.Struct); isStruct {
+					al = c2
+				}
+			}
 		}
 	}
 	subst := map[*ssa.Parameter]ssa.Value{}
